@@ -192,6 +192,20 @@ func (c *FnCtx) run() {
 	}
 }
 
+// callSiteOrdinal: position (1-based, source order) of this call among the calls of the function
+// whose source text starts with the prefix.
+func (c *FnCtx) callSiteOrdinal(in *ssa.Call, prefix string) int {
+	n := 1
+	for _, b := range c.fn.Blocks {
+		for _, x := range b.Instrs {
+			if call, ok := x.(*ssa.Call); ok && call != in && call.Pos().IsValid() && call.Pos() < in.Pos() && strings.HasPrefix(c.anchor(call), prefix) {
+				n++
+			}
+		}
+	}
+	return n
+}
+
 // rpo returns blocks in reverse post-order ignoring back edges.
 func (c *FnCtx) rpo() []*ssa.BasicBlock {
 	seen := map[*ssa.BasicBlock]bool{}
@@ -907,12 +921,22 @@ func (c *FnCtx) execInstr(st *State, b *ssa.BasicBlock, in ssa.Instruction) bool
 				if cl.Kind != "assertcall" || !strings.HasPrefix(c.anchor(in), cl.At) {
 					continue
 				}
+				if cl.AtOrd > 0 && c.callSiteOrdinal(in, cl.At) != cl.AtOrd {
+					continue
+				}
 				c.callAsserts[i]++
 				name := cl.Name
 				if name == "" {
 					name = cl.At
 				}
-				c.obligeAlways(st, "ghost", fmt.Sprintf("%s#%d", name, c.callAsserts[i]), in.Pos(), c.loopEnv(st).evalBool(cl.E), "ghost assertion before the call: "+cl.Text, cl.Tags)
+				// the call's arguments are visible as arg0, arg1, ... (receiver of an interface call excluded)
+				env := c.loopEnv(st)
+				avars := map[string]Val{}
+				for k, a := range in.Call.Args {
+					avars[fmt.Sprintf("arg%d", k)] = c.val(st, a)
+				}
+				env = env.with(avars)
+				c.obligeAlways(st, "ghost", fmt.Sprintf("%s#%d", name, c.callAsserts[i]), in.Pos(), env.evalBool(cl.E), "ghost assertion before the call: "+cl.Text, cl.Tags)
 			}
 		}
 		if len(c.fc.Counters) > 0 && in.Pos().IsValid() {
